@@ -4,7 +4,7 @@ harness binaries run the correspondence, what is trusted)."""
 GO_TRUST = "Go compiler/runtime; the harness (cmd/%s) and the Lean line-protocol driver, incl. their canonicalisation"
 
 GSYNC_COMMON = dict(
-    lean_modules=["Properties.C01", "Properties.C02"],
+    lean_modules=["Lemmas.GSyncInv", "Lemmas.GSyncSum", "Properties.C01", "Properties.C02"],
     harness=[dict(bin="h-gsync", instrument=dict(src="/repo/gsync", dst="instr/gsyncx"))],
     trusted=[GO_TRUST % "h-gsync", "cmd/instrument (rewrites only the import paths sync, sync/atomic and the builtin close)",
              "internal/sched: cooperative scheduler and shims = sequentially consistent atomics, mutex, close",
